@@ -124,15 +124,19 @@ pub fn content_damages(v: &Value) -> Vec<Value> {
             }
             Value::Array(a) => {
                 for (i, x) in a.iter().enumerate() {
+                    out.push((format!("{at}/{i}"), false));
                     leaves(x, format!("{at}/{i}"), out);
                 }
             }
             _ => {}
         }
     }
-    let mut ps = vec![];
+    let mut ps = vec![(String::new(), true)];
     leaves(v, String::new(), &mut ps);
-    let max_leaves = std::env::var("ITV_DAMAGE_LEAVES").ok().and_then(|s| s.parse().ok()).unwrap_or(40usize);
+    let max_leaves = std::env::var("ITV_DAMAGE_LEAVES").ok().and_then(|s| s.parse().ok()).unwrap_or(0usize);
+    if max_leaves == 0 {
+        return vec![];
+    }
     // spread the budget over the whole document
     let step = (ps.len() / max_leaves).max(1);
     let mut out = vec![];
@@ -150,6 +154,15 @@ pub fn content_damages(v: &Value) -> Vec<Value> {
             Value::Number(_) => {
                 alts.push(Some(json!(-1)));
                 alts.push(Some(json!(4294967296u64)));
+                alts.push(Some(json!(1.5)));
+            }
+            // an object gains a member no schema knows, holding a value of a kind the document never uses
+            Value::Object(o) => {
+                for extra in [json!(1.25), json!(5e-1), json!(null), json!({"n": [1e30]})] {
+                    let mut o2 = o.clone();
+                    o2.insert("zz-unknown".to_string(), extra);
+                    alts.push(Some(Value::Object(o2)));
+                }
             }
             _ => {}
         }
@@ -163,12 +176,19 @@ pub fn content_damages(v: &Value) -> Vec<Value> {
                     *m.pointer_mut(p).unwrap() = x;
                 }
                 None => {
+                    if p.is_empty() {
+                        continue;
+                    }
                     let (parent, key) = p.rsplit_once('/').unwrap();
                     let key = key.replace("~1", "/").replace("~0", "~");
-                    if let Some(Value::Object(o)) = m.pointer_mut(parent) {
-                        o.remove(&key);
-                    } else {
-                        continue;
+                    match m.pointer_mut(parent) {
+                        Some(Value::Object(o)) => {
+                            o.remove(&key);
+                        }
+                        Some(Value::Array(a)) => {
+                            a.remove(key.parse::<usize>().unwrap());
+                        }
+                        _ => continue,
                     }
                 }
             }
@@ -334,6 +354,12 @@ pub fn build_layout(d: &Value, km: &KeyMap, rng: &mut impl rand::Rng) -> Metadat
     for k in &knames {
         b = b.add_key(km.pk(k).clone());
     }
+    if d["keys"] == "all" {
+        // ... and keys in every construction form of the public API (hash-algorithm list absent / custom / empty)
+        for k in crate::lifecycle::listed_key_forms() {
+            b = b.add_key(k);
+        }
+    }
     let thr = match d["thr"].as_str().unwrap() {
         "zero" => 0,
         "one" => 1,
@@ -474,6 +500,13 @@ pub fn pred_doc_nest(fields: &[String], mat: &str, ts: &str, nest: &str) -> Valu
     for f in fields {
         let v = match f.as_str() {
             "name" => json!("step"),
+            "materials" if nest != "full" && mat == "list" => {
+                if nest == "empty" {
+                    json!([{}, {"digest": {}}])
+                } else {
+                    json!([])
+                }
+            }
             "materials" => {
                 if mat == "map" {
                     json!({"src/a": {"sha256": "11".repeat(32)}})
@@ -490,13 +523,6 @@ pub fn pred_doc_nest(fields: &[String], mat: &str, ts: &str, nest: &str) -> Valu
             "metadata" if nest == "min" => json!({}),
             "invocation" if nest == "empty" => json!({"configSource": {"uri": null}}),
             "invocation" if nest == "min" => json!({}),
-            "materials" if nest != "full" && mat == "list" => {
-                if nest == "empty" {
-                    json!([{}, {"digest": {}}])
-                } else {
-                    json!([])
-                }
-            }
             "recipe" => json!({"type": "https://example.com/recipe", "definedInMaterial": 0, "entryPoint": "build"}),
             "metadata" => {
                 let mut m = json!({"buildInvocationId": "id-1", "completeness": {"arguments": true, "materials": false}, "reproducible": false});
